@@ -866,6 +866,12 @@ pub fn gen_overlay(rng: &mut Rng, removed_variant: bool) -> Scenario {
             let picked: String = rng.pick(&paths).clone();
             let k = key_of_path(&picked);
             close_doc(&mut b, &k);
+            if rng.chance(1, 3) {
+                // questions between the close and the next edit
+                let n = rng.range(1, 3);
+                requests_burst(rng, &mut b, n, &probe_kinds, None);
+                b.ops.push(Op::Sync);
+            }
             if rng.chance(2, 3) {
                 touch(rng, &mut b, &keys, &k, &cfg, false, false);
             }
@@ -1085,6 +1091,12 @@ pub fn gen_hist_live(rng: &mut Rng) -> Scenario {
             let paths: Vec<String> = b.open.keys().cloned().collect();
             let picked: String = rng.pick(&paths).clone();
             close_doc(&mut b, &key_of_path(&picked));
+            if rng.chance(1, 2) {
+                // questions between the close and the next edit
+                let n = rng.range(1, 4);
+                requests_burst(rng, &mut b, n, &kinds, None);
+                b.ops.push(Op::Sync);
+            }
         }
         let k = *rng.pick(&docs);
         let save = rng.chance(1, 2);
